@@ -211,6 +211,37 @@ class RT:
     def stop(self):
         raise PathAbort()
 
+    # ---- boolean operators inside comprehension bodies -----------------------------------------
+    def _bool_chain(self, thunks, is_and):
+        c = ctx()
+        acc = []
+        last = None
+        for th in thunks:
+            v = th()
+            last = v
+            if isinstance(v, Sym) and v.t.sort() == BOOL and c.qguards:
+                acc.append(v.t)                      # at a bound variable: no branch, keep the term (both operands are total on proxies)
+                continue
+            truth = _b.bool(v)                       # concrete value, or a proxy outside quantified mode (an ordinary decision)
+            if is_and and not truth:
+                return v if not acc else Sym(z3.BoolVal(False))
+            if not is_and and truth:
+                return v if not acc else Sym(z3.BoolVal(True))
+        if not acc:
+            return last
+        return Sym(z3.And(*acc) if is_and else z3.Or(*acc))
+
+    def bool_and(self, thunks):
+        return self._bool_chain(thunks, True)
+
+    def bool_or(self, thunks):
+        return self._bool_chain(thunks, False)
+
+    def bool_not(self, v):
+        if isinstance(v, Sym) and v.t.sort() == BOOL and ctx().qguards:
+            return Sym(z3.Not(v.t))
+        return not v
+
     # ---- comprehensions / literals -------------------------------------------------------
     def comp2(self, kind, fn, it1, it2fn):
         """[fn(a)(b) for a in it1 for b in it2fn(a)]"""
